@@ -471,4 +471,112 @@ theorem Plan.bind_nostop (k : ρ → List ε × Plan ε α ρ') (sm : ρ → ρ'
   | done r => exact hk r
   | step stop onStop ts pre next hs _ ih => exact Plan.NoStop.step _ _ _ _ _ hs ih
 
+/-! ### A failed step aborts everything after it — under every schedule
+
+  A step one of whose operands finishes with a stopping output (`try_join!`: a failure; any step: a panic) is never
+  left normally: whatever gates are open at whatever polls, the future stays in this step or ends with the stop result
+  of one of this step's stopping operands; only events of this step's operands are ever emitted — nothing of `pre`,
+  nothing of `next` (later steps, the handler). -/
+
+theorem pollStep_stop_some (op : Gates) (stop : α → Bool) (ts : List (Task ε α)) (a : α)
+    (h : (pollStep op stop ts).2.2 = some a) : stop a = true ∧ a ∈ ts.map (·.out) := by
+  induction ts with
+  | nil => simp [pollStep] at h
+  | cons t ts ih =>
+    unfold pollStep at h
+    split at h
+    · rename_i hc
+      simp only [Option.some.injEq] at h
+      subst h
+      simp only [Bool.and_eq_true] at hc
+      exact ⟨hc.2, by simp [Task.poll_out]⟩
+    · obtain ⟨h1, h2⟩ := ih h
+      exact ⟨h1, List.mem_cons_of_mem _ h2⟩
+
+theorem pollStep_stopper_not_all_done (op : Gates) (stop : α → Bool) (ts : List (Task ε α))
+    (hst : ∃ t ∈ ts, stop t.out = true) (hn : (pollStep op stop ts).2.2 = none) :
+    (pollStep op stop ts).2.1.all Task.done = false := by
+  induction ts with
+  | nil => obtain ⟨t, ht, _⟩ := hst; cases ht
+  | cons t ts ih =>
+    unfold pollStep at hn ⊢
+    split at hn
+    · cases hn
+    · rename_i hc
+      simp only [hc, Bool.false_eq_true, if_false, List.all_cons]
+      obtain ⟨t0, ht0, hs0⟩ := hst
+      rcases List.mem_cons.mp ht0 with rfl | ht0
+      · -- the stopper is this operand: it cannot be finished, or the poll would have stopped here
+        have : (t0.poll op).2.done = false := by
+          cases hd : (t0.poll op).2.done with
+          | false => rfl
+          | true => simp [hd, Task.poll_out, hs0] at hc
+        simp [this]
+      · simp [ih ⟨t0, ht0, hs0⟩ hn]
+
+theorem pollStep_events_in (op : Gates) (stop : α → Bool) (ts : List (Task ε α)) (S : ε → Prop)
+    (hS : ∀ t ∈ ts, ∀ e ∈ t.allEvs, S e) :
+    (∀ e ∈ (pollStep op stop ts).1, S e) ∧ (∀ t ∈ (pollStep op stop ts).2.1, ∀ e ∈ t.allEvs, S e) := by
+  induction ts with
+  | nil => exact ⟨fun e he => (by cases he), fun t ht => (by cases ht)⟩
+  | cons t ts ih =>
+    have hsplit := Task.poll_split op t
+    have ht : ∀ e ∈ (t.poll op).1 ++ (t.poll op).2.allEvs, S e := by rw [hsplit]; exact hS t List.mem_cons_self
+    obtain ⟨i1, i2⟩ := ih (fun t' ht' => hS t' (List.mem_cons_of_mem _ ht'))
+    unfold pollStep
+    split
+    · refine ⟨fun e he => ht e (List.mem_append_left _ he), ?_⟩
+      intro t' ht' e he
+      rcases List.mem_cons.mp ht' with rfl | ht'
+      · exact ht e (List.mem_append_right _ he)
+      · exact hS t' (List.mem_cons_of_mem _ ht') e he
+    · refine ⟨?_, ?_⟩
+      · intro e he
+        rcases List.mem_append.mp he with he | he
+        · exact ht e (List.mem_append_left _ he)
+        · exact i1 e he
+      · intro t' ht' e he
+        rcases List.mem_cons.mp ht' with rfl | ht'
+        · exact ht e (List.mem_append_right _ he)
+        · exact i2 t' ht' e he
+
+/-- **A step with a stopping operand is never passed**, whatever the schedule. -/
+theorem Plan.run_stopper (S : ε → Prop) (stop : α → Bool) (onStop : α → ρ) (pre : List α → List ε)
+    (next : List α → Plan ε α ρ) (outs : List α) (hst : ∃ a ∈ outs, stop a = true) (gs : List Gates) :
+    ∀ ts : List (Task ε α), ts.map (·.out) = outs → (∀ t ∈ ts, ∀ e ∈ t.allEvs, S e) →
+      (∀ e ∈ ((Plan.step stop onStop ts pre next).run gs).1, S e) ∧
+      ((∃ ts', ((Plan.step stop onStop ts pre next).run gs).2 = .step stop onStop ts' pre next) ∨
+       (∃ a, ((Plan.step stop onStop ts pre next).run gs).2 = .done (onStop a) ∧ stop a = true ∧ a ∈ outs)) := by
+  induction gs with
+  | nil => intro ts _ _; exact ⟨fun e he => (by cases he), Or.inl ⟨ts, rfl⟩⟩
+  | cons g gs ih =>
+    intro ts houts hS
+    have hstt : ∃ t ∈ ts, stop t.out = true := by
+      obtain ⟨a, ha, hsa⟩ := hst
+      rw [← houts] at ha
+      obtain ⟨t, ht, rfl⟩ := List.mem_map.mp ha
+      exact ⟨t, ht, hsa⟩
+    obtain ⟨e1, e2⟩ := pollStep_events_in g stop ts S hS
+    simp only [Plan.run, Plan.poll]
+    cases hps : (pollStep g stop ts).2.2 with
+    | some a =>
+      obtain ⟨h1, h2⟩ := pollStep_stop_some g stop ts a hps
+      simp only
+      have hrun : ∀ (gs : List Gates) (r : ρ), (Plan.done r : Plan ε α ρ).run gs = ([], .done r) := by
+        intro gs r
+        induction gs with
+        | nil => rfl
+        | cons g gs ih2 => simp [Plan.run, Plan.poll, ih2]
+      rw [hrun]
+      refine ⟨by simpa using e1, Or.inr ⟨a, rfl, h1, by rw [← houts]; exact h2⟩⟩
+    | none =>
+      have hnd := pollStep_stopper_not_all_done g stop ts hstt hps
+      simp only [hnd, Bool.false_eq_true, if_false]
+      obtain ⟨i1, i2⟩ := ih (pollStep g stop ts).2.1 (by rw [pollStep_outs, houts]) e2
+      refine ⟨?_, i2⟩
+      intro e he
+      rcases List.mem_append.mp he with he | he
+      · exact e1 e he
+      · exact i1 e he
+
 end JoinModel
